@@ -73,6 +73,15 @@ func (ex *Exec) execBlock(fr *Frame, b *ssa.BasicBlock, st *State, k retK) {
 func (ex *Exec) execFrom(fr *Frame, b *ssa.BasicBlock, start int, st *State, k retK) {
 	for i := start; i < len(b.Instrs); i++ {
 		ins := b.Instrs[i]
+		switch ins.(type) {
+		case *ssa.Return, *ssa.ChangeType, *ssa.Store, *ssa.Call:
+			// a function literal that captures nothing is a plain function value
+			for _, op := range ins.Operands(nil) {
+				if f, ok := (*op).(*ssa.Function); ok && f.Parent() != nil {
+					ex.conformClosure(fr, st, f, []ssa.Instruction{ins}, f, &Closure{Fn: f})
+				}
+			}
+		}
 		switch x := ins.(type) {
 		case *ssa.Phi, *ssa.DebugRef:
 			continue
@@ -204,7 +213,11 @@ func (ex *Exec) branchDesc(fn *ssa.Function, x *ssa.If, taken bool) string {
 
 func (ex *Exec) safetyProps(fr *Frame) []string {
 	ps := []string{"C04"}
-	if c := ex.specs.Contracts[fnKeyOf(fr.fn)]; c != nil {
+	c := ex.specs.Contracts[fnKeyOf(fr.fn)]
+	if c == nil && !fr.top {
+		c = ex.con // a helper without a contract is part of the function it is inlined into
+	}
+	if c != nil {
 		for _, p := range c.Props {
 			if p != "C04" {
 				ps = append(ps, p)
@@ -407,6 +420,9 @@ func (ex *Exec) evalInstr(fr *Frame, st *State, ins ssa.Instruction, v ssa.Value
 			c.Bindings = append(c.Bindings, ex.val(fr, st, b))
 		}
 		ex.checkClosurePre(fr, st, x, fn, c)
+		if x.Referrers() != nil {
+			ex.conformClosure(fr, st, x, *x.Referrers(), fn, c)
+		}
 		id := ex.newObj(st)
 		st.Closures[id.String()] = c
 		st.assume(Eq(UF("closure.fn", SInt, id), ex.funcID(fn)))
@@ -1072,6 +1088,126 @@ func (ex *Exec) checkClosurePre(fr *Frame, st *State, site *ssa.MakeClosure, fn 
 		}
 		ex.oblige(st, "closure-pre@"+fnKeyOf(fn), r.Label, mergeProps(r.Props, ex.safetyProps(fr)[1:]), g, site.Pos(), fnKeyOf(fr.fn))
 	}
+}
+
+// closureUseType: the named function type a closure is created for (the result type of the
+// function returning it, the type it is converted to, the field or parameter it is stored in
+// or passed as), when a callback specification exists for that type.
+func (ex *Exec) closureUseType(fr *Frame, x ssa.Value, users []ssa.Instruction) (string, *Contract) {
+	try := func(t types.Type) (string, *Contract) {
+		if n, ok := t.(*types.Named); ok {
+			key := "callback " + typeKey(n)
+			if c := ex.specs.Contracts[key]; c != nil {
+				return key, c
+			}
+		}
+		return "", nil
+	}
+	for _, r := range users {
+		switch u := r.(type) {
+		case *ssa.Return:
+			rs := fr.fn.Signature.Results()
+			for i, v := range u.Results {
+				if v == x && i < rs.Len() {
+					if k, c := try(rs.At(i).Type()); c != nil {
+						return k, c
+					}
+				}
+			}
+		case *ssa.ChangeType:
+			if k, c := try(u.Type()); c != nil {
+				return k, c
+			}
+		case *ssa.Store:
+			if u.Val == x {
+				if k, c := try(deref(u.Addr.Type())); c != nil {
+					return k, c
+				}
+			}
+		case *ssa.Call:
+			sig := u.Common().Signature()
+			for i, a := range u.Common().Args {
+				if a == x && sig != nil && !u.Common().IsInvoke() {
+					j := i
+					if sig.Recv() != nil {
+						j = i - 1
+					}
+					if j >= 0 && j < sig.Params().Len() {
+						if k, c := try(sig.Params().At(j).Type()); c != nil {
+							return k, c
+						}
+					}
+				}
+			}
+		}
+	}
+	return "", nil
+}
+
+// conformClosure: a closure without a contract of its own that is handed out as a value of a
+// function type with a callback specification is what callers of that type will invoke under
+// that specification. Its body is executed here, on a copy of the state it is created in, for
+// arbitrary arguments satisfying the callback's precondition: its run-time checks and the
+// preconditions of what it calls become obligations, and the callback's postconditions are
+// checked at its returns. Its effects are discarded.
+func (ex *Exec) conformClosure(fr *Frame, st *State, x ssa.Value, users []ssa.Instruction, fn *ssa.Function, c *Closure) {
+	if ex.recording != nil || len(fn.Blocks) == 0 || !inRepo(fn) {
+		return
+	}
+	key := fnKeyOf(fn)
+	if ex.specs.Contracts[key] != nil {
+		return // verified on its own against its own contract
+	}
+	cbKey, cb := ex.closureUseType(fr, x, users)
+	if cb == nil {
+		return
+	}
+	cb.Used = true
+	ex.usedSpecs[cbKey] = true
+	fork := st.clone()
+	fork.Trace = append(fork.Trace, "conform "+key+" to "+cbKey)
+	var args []Value
+	for _, p := range fn.Params {
+		args = append(args, ex.freshValue(fork, p.Type(), "cb."+p.Name()))
+	}
+	self := Value{T: fn.Signature, L: []*Term{ex.funcID(fn)}}
+	cargs := append([]Value{self}, args...)
+	env := ex.contractEnv(cb, nil, cargs, nil, fork, fr)
+	for _, r := range cb.Requires {
+		if g := tryBool(env, r.Expr); g != nil {
+			fork.assume(g)
+		}
+	}
+	entry := fork.clone()
+	rt := fn.Signature.Results()
+	var resT types.Type = rt
+	if rt.Len() == 1 {
+		resT = rt.At(0).Type()
+	}
+	func() {
+		defer func() {
+			if r := recover(); r != nil {
+				if ap, ok := r.(abortPath); ok {
+					ex.unsupported[ap.why] = true
+					return
+				}
+				panic(r)
+			}
+		}()
+		ex.callByKey(fr, key, fn, args, c.Bindings, resT, x.Pos(), nil, fork, func(st2 *State, res Value) {
+			if len(cb.Ensures) == 0 {
+				return
+			}
+			env2 := ex.contractEnv(cb, nil, cargs, nil, st2, fr)
+			env2.old = entry
+			ex.bindResults(env2, cb, nil, res, resT)
+			for _, e := range cb.Ensures {
+				if g := tryBool(env2, e.Expr); g != nil {
+					ex.oblige(st2, "conforms@"+strings.TrimPrefix(cbKey, "callback "), e.Label, mergeProps(e.Props, ex.safetyProps(fr)[1:]), g, x.Pos(), key)
+				}
+			}
+		})
+	}()
 }
 
 // doSpawn: `go f(args)`. The spawned function runs concurrently with the rest of the spawner:
